@@ -12,8 +12,9 @@
 3. Seeded random variations (several shapes stacked, CRLF/tabs mixed in, planting up to three ifs deeper).
 4. Negative controls: corrupted observations (line shifted by one, file swapped), a stub re-creating the
    tokenizer regression fixed by e1d1e87 (newlines in literals not counted), a stub counting a literal's lines
-   with str::lines() (a literal ending in a newline is one line short) and a stub relating line numbers of
-   different files for colliding imports must be rejected by TLC - and only where the spec says they matter.
+   with str::lines() (a literal ending in a newline is one line short), a stub relating line numbers of
+   different files for colliding imports and a stub locating errors at the first line of the enclosing statement
+   must be rejected by TLC - and only where the spec says they matter.
 """
 import json
 import os
@@ -67,8 +68,9 @@ def validate(wd, name, trace, fullpath, universe, ev, verdicts, workers=None, gu
     for act in ACTIONS if guards else ():
         if r.coverage.get(act, (0, 0))[1] == 0:
             vlib.tool_error("vacuity: trace action %s never taken in %s" % (act, name))
-    if r.coverage.get("TraceInit", (0, 0))[0] != len(recs):
-        vlib.tool_error("%s: TLC validated %d records, the trace has %d" % (name, r.coverage["TraceInit"][0], len(recs)))
+    # every record is three states (new, run, verdict); (coverage counts are summed over TLC's periodic reports)
+    if r.distinct != 3 * len(recs):
+        vlib.tool_error("%s: TLC validated %d/3 records, the trace has %d" % (name, r.distinct, len(recs)))
     for rej in bad:
         rec, full = recs[rej["rec"] - 1], fulls[rej["rec"] - 1]
         sig = signature(rec, rej["why"])
@@ -135,7 +137,10 @@ def controls(wd, recs, bad, stats):
         vlib.tool_error("the spec's EndsNLShapes and the control's list of other multi-line shapes overlap")
     items = [("corrupt", y, want) for (y, want) in corrupt_records(recs, bad)]
     # (b) newlines inside string literals are not counted at all (the regression fixed by e1d1e87)
-    for x in stub_records(wd, "f1", shapes=["none", "ml_string2", "ml_string3", "str_endnl_arg", "str_onlynl_stmt"]):
+    tok_kinds = ["syn_rparen", "syn_char", "unresolved", "dup_global", "const_local", "const_global", "const_param",
+                 "op_mismatch", "arg_mismatch", "annot_mismatch", "break_outside", "conflict", "ml_arg_paren", "ml_from_last"]
+    for x in stub_records(wd, "f1", shapes=["none", "ml_string2", "ml_string3", "str_endnl_arg", "str_onlynl_stmt"],
+                          kinds=tok_kinds):
         want = None
         if x["shape"] == "none":
             want = None if signature(x, "earlier") in bad_sigs else "conform"
@@ -143,7 +148,7 @@ def controls(wd, recs, bad, stats):
             want = "earlier"
         items.append(("f1", x, want))
     # (c) a literal's newlines counted with str::lines(): one line short iff the content ends with a newline
-    for x in stub_records(wd, "lines", shapes=["none"] + sorted(ends_nl) + plain_ml, files=["main", "sub"]):
+    for x in stub_records(wd, "lines", shapes=["none"] + sorted(ends_nl) + plain_ml, files=["sub"], kinds=tok_kinds):
         want = None
         if x["shape"] not in ends_nl:
             want = None if signature(x, "earlier") in bad_sigs else "conform"
@@ -153,6 +158,11 @@ def controls(wd, recs, bad, stats):
     # (d) line numbers of different files related to each other when ordering the introductions of an imported name
     for x in stub_records(wd, "xfile", shapes=["none", "str_endnl_init", "tabs"], kinds=sorted(stats["from_kinds"])):
         items.append(("xfile", x, "other-file" if x["rel"] == "def_later" else "conform"))
+    # (e) errors located at the first line of the planted statement instead of at the offending element
+    ml = set(stats["ml_kinds"])
+    for x in stub_records(wd, "stmt", shapes=["none", "tabs", "str_endnl_init"],
+                          kinds=sorted(ml) + ["syn_rparen", "unresolved", "arg_mismatch", "op_mismatch", "const_global"]):
+        items.append(("stmt", x, "earlier" if x["kind"] in ml else "conform"))
     path = os.path.join(wd, "neg-controls.ndjson")
     vlib.write_ndjson(path, [y for (_, y, _) in items])
     _, rejects = run_tlc(wd, "neg-controls", path, "part")
@@ -172,7 +182,7 @@ def controls(wd, recs, bad, stats):
     for name, c in counts.items():
         if c["must_reject"] == 0 or c["rejected_as_required"] != c["must_reject"] or c["wrongly_rejected"]:
             vlib.tool_error("negative control %s accepted: %s" % (name, json.dumps(c)))
-    for name in ("f1", "lines", "xfile"):
+    for name in ("f1", "lines", "xfile", "stmt"):
         if counts[name]["must_conform"] == 0:
             vlib.tool_error("negative control %s has no case that must stay conforming" % name)
     return counts
@@ -212,7 +222,8 @@ def run(ctx):
                        "universe": {k: v for k, v in stats.items() if not isinstance(v, list)},
                        "shape_names": stats["shape_names"], "shapes_ending_a_literal_with_a_newline": stats["ends_nl_shapes"],
                        "kinds_with_module_layout_dimension": stats["from_kinds"],
-                       "invariants": ["LineAgrees", "ColSane", "SampleLineOK"], "assumes": ["UniverseOK"],
+                       "multi_line_kinds": stats["ml_kinds"],
+                       "invariants": ["LineAgrees", "PrevNLAgrees", "ColSane", "SampleLineOK"], "assumes": ["UniverseOK"],
                        "tlc_wall_s": round(r.wall_s, 1)})
     ev.add("states", r.distinct)
     ev.add("transitions", r.generated)
@@ -243,7 +254,8 @@ def run(ctx):
            negative_controls={
                "corrupted_observations": counts["corrupt"], "stub_f1_newlines_in_literals_not_counted": counts["f1"],
                "stub_lines_literal_ending_in_newline_one_short": counts["lines"],
-               "stub_xfile_line_numbers_related_across_files": counts["xfile"]})
+               "stub_xfile_line_numbers_related_across_files": counts["xfile"],
+               "stub_stmt_first_line_of_the_statement_instead_of_the_element": counts["stmt"]})
 
     ev.set(samples=samples, exhaustive=True, exhaustive_scope="the cross product; the random variations are sampled",
            distinct_nontrivial=distinct,
@@ -258,7 +270,9 @@ def run(ctx):
               "construct in the file's text; for duplicate names the textually later of the two introductions (definition, "
               "`use`, `from .. use`) in the file that holds both is the offending one, wherever the imported names are defined",
               "non-ASCII characters are shown to TLC as '@' (character-for-character); the compiler sees the real text",
-              "planted constructs are single-line, so 'the line where the construct is written' is unambiguous",
+              "the offending element of every planted form is written on one line, so 'the line where the construct is written' "
+              "is unambiguous; for the multi-line kinds the element (argument, list/tuple/blob element, imported name, operand "
+              "expression, statement of a block lambda) is the construct, not the statement that contains it",
               "only the FIRST returned error's file and span.line_start are observed, never message texts")
     rc = verdicts.finish()
     ev.violations = len(verdicts.violations)
